@@ -155,7 +155,8 @@ def leaf_filter(out):
 
     # ---- ForEachMixins::forEach (the non-empty MixinList specialisation)
     trees = clang_ast('#include "eventpp/eventdispatcher.h"\n', 'ForEachMixins')
-    fn, body = find_function(trees, 'forEach', pred=lambda n: any(x.get('kind') == 'IfStmt' for x in walk(n)))
+    # the non-empty MixinList specialisation: the one whose forEach goes on to ForEachMixins<...>::forEach for the rest
+    fn, body = find_function(trees, 'forEach', pred=lambda n: any(x.get('kind') == 'CallExpr' and 'ForEachMixins<' in ''.join(src_text(kids(x)[0], 'internal/eventpolicies_i.h').split()) for x in walk(n) if kids(x)))
 
     POL = 'internal/eventpolicies_i.h'
 
@@ -171,43 +172,59 @@ def leaf_filter(out):
             return 'rest' if is_rest(n) else 'first'
         return None
     chain = stmts_to_expr(Tr(atom_m), kids(body))
-    # the remaining mixins are evaluated only inside the then-branch of a test on the first
-    ifs = [s for s in kids(body) if s.get('kind') == 'IfStmt']
+    # the remaining mixins are evaluated only when the first one answered true (path condition of the one call for the
+    # rest, short-circuit operators included); the first is asked once
     rest_calls = [x for x in walk(body) if is_foreach(x) and is_rest(x)]
     first_calls = [x for x in walk(body) if is_foreach(x) and not is_rest(x)]
     if first_calls and ''.join(src_text(kids(first_calls[0])[0], POL).split()) != 'Func::templateforEach<Type>':
         raise Untranslatable('ForEachMixins::forEach: the first call is not Func::template forEach<Type>')
-    if len(ifs) != 1 or len(rest_calls) != 1 or len(first_calls) != 1:
+    if len(rest_calls) != 1 or len(first_calls) != 1:
         raise Untranslatable('ForEachMixins::forEach: unexpected shape')
-    cond, then = kids(ifs[0])[0], kids(ifs[0])[1]
-    if strip(cond) is not first_calls[0]:
-        raise Untranslatable('ForEachMixins::forEach: the test is not the first mixin alone')
-    if not any(x is rest_calls[0] for x in walk(then)):
+    F1 = ('atom', 'first')
+    hits = reached_under(body, lambda n: F1 if n is first_calls[0] else None, lambda x: x is rest_calls[0])
+    if len(hits) != 1 or not implies(hits[0][1], F1):
         raise Untranslatable('ForEachMixins::forEach: the remaining mixins are not under the test on the first')
 
     # ---- EventDispatcherBase::directDispatch
     trees = clang_ast('#include "eventpp/eventdispatcher.h"\n', 'directDispatch')
     fn, body = find_function(trees, 'directDispatch')
     stmts = kids(body)
-    if not stmts or stmts[0].get('kind') != 'IfStmt':
-        raise Untranslatable('directDispatch: the first statement is not the mixin gate')
-    gate = stmts[0]
-    gk = kids(gate)
-    if len(gk) != 2:
-        raise Untranslatable('directDispatch: the mixin gate has an else branch')
-    then_stmts = kids(gk[1]) if gk[1].get('kind') == 'CompoundStmt' else [gk[1]]
-    if len(then_stmts) != 1 or then_stmts[0].get('kind') != 'ReturnStmt' or kids(then_stmts[0]):
-        raise Untranslatable('directDispatch: the mixin gate does not just return')
-    mcalls = calls_to(gk[0], 'forEach')
+    # the mixins are asked exactly once; the lookup of the listener list (and with it the dispatch) is reached under a
+    # condition on their answer alone — decided on path conditions, so that `if(! ok) return; lookup`,
+    # `if(ok) { lookup }` and `const bool ok = ...; if(ok) { lookup }` are read alike
+    mcalls = calls_to(body, 'forEach')
     gsrc = ''.join(src_text(kids(mcalls[0])[0], 'eventdispatcher.h').split()) if len(mcalls) == 1 else ''
     if len(mcalls) != 1 or not gsrc.startswith('internal_::ForEachMixins<') or not gsrc.endswith(',DoMixinBeforeDispatch>::forEach'):
-        raise Untranslatable('directDispatch: the gate is not ForEachMixins<..., DoMixinBeforeDispatch>::forEach')
+        raise Untranslatable('directDispatch: the mixins are not asked once through ForEachMixins<..., DoMixinBeforeDispatch>::forEach')
+    alias = set()
+    for v in find_all(body, 'VarDecl'):
+        if any(x is mcalls[0] for x in walk(v)):
+            alias.add(v.get('id'))
+    M = ('atom', 'mixins_ok')
 
-    def atom_g(n):
-        if is_call(n) and callee_name(n) == 'forEach':
-            return 'mixins_ok'
+    def classify_g(n):
+        if n is mcalls[0]:
+            return M
+        if n.get('kind') == 'DeclRefExpr' and (n.get('referencedDecl') or {}).get('id') in alias:
+            return M
         return None
-    gate_expr = '(if %s then false else true)' % Tr(atom_g).expr(gk[0])
+    hits = reached_under(body, classify_g, lambda x: is_call(x) and 'doFindCallableList' in src_text(x, 'eventdispatcher.h')
+                         and not any(is_call(y) and y is not x and 'doFindCallableList' in src_text(y, 'eventdispatcher.h') for y in walk(x)))
+    if not hits:
+        raise Untranslatable('directDispatch: no doFindCallableList')
+    tables = set()
+    for _, pc in hits:
+        from leafcore import _atoms, _ev
+        if _atoms(pc, set()) - {'mixins_ok'}:
+            raise Untranslatable('directDispatch: the lookup depends on more than the mixins\' answer')
+        tables.add((_ev(pc, {'mixins_ok': True}), _ev(pc, {'mixins_ok': False})))
+    if len(tables) != 1:
+        raise Untranslatable('directDispatch: lookups under different conditions')
+    on_true, on_false = tables.pop()
+    bb = lambda v: 'true' if v else 'false'   # noqa: E731
+    gate_expr = '(if (negb mixins_ok) then false else true)' if (on_true, on_false) == (True, False) else \
+        '(if mixins_ok then %s else %s)' % (bb(on_true), bb(on_false))
+    lookup_after = not on_false
     margs = kids(mcalls[0])[1:]
     if not margs or strip(margs[0]).get('kind') != 'CXXThisExpr':
         raise Untranslatable('directDispatch: forEach is not called with this first')
@@ -218,12 +235,6 @@ def leaf_filter(out):
         src = [strip(x) for x in kids(inner)]
         lv = (inner.get('kind') in ('CXXUnresolvedConstructExpr', 'CXXFunctionalCastExpr') and 'add_lvalue_reference<Args>::type' in ty
               and len(src) == 1 and src[0].get('kind') == 'DeclRefExpr' and member_name(src[0]) == 'args')
-    idx_lookup = [i for i, s in enumerate(stmts) if 'doFindCallableList' in src_text(s, 'eventdispatcher.h')]
-    if not idx_lookup:
-        raise Untranslatable('directDispatch: no doFindCallableList')
-    lookup_after = min(idx_lookup) > 0
-    if any(calls_to(s, 'forEach') for s in stmts[1:]):
-        raise Untranslatable('directDispatch: mixins run more than once')
 
     # ---- EventQueueBase::doDispatchQueuedEvent
     trees = clang_ast('#include "eventpp/eventqueue.h"\n', 'doDispatchQueuedEvent')
